@@ -112,6 +112,8 @@ func isNarrowing(from, to types.Type) bool {
 	return lo1.Cmp(lo2) < 0 || hi1.Cmp(hi2) > 0
 }
 
+var wireTruncation = true
+
 func ruleWIRE(w *World, r *Report, only ...string) {
 	r.rule("WIRE", ruleWIREText)
 	if w.GOARCH == "386" {
@@ -201,7 +203,7 @@ func ruleWIRE(w *World, r *Report, only ...string) {
 					}
 				case *ssa.Slice:
 					// INSLICE: constant bounds on a byte-slice parameter (raw input)
-					if par, isPar := x.X.(*ssa.Parameter); isPar && isByteSlice(par.Type()) {
+					if par, isPar := x.X.(*ssa.Parameter); isPar && isByteSlice(par.Type()) && wireTruncation {
 						need := int64(-1)
 						for _, bd := range []ssa.Value{x.Low, x.High} {
 							if bd == nil {
@@ -267,7 +269,7 @@ func ruleWIRE(w *World, r *Report, only ...string) {
 				case *ssa.Call:
 					// INSLICE for fixed-width reads of a byte-slice parameter
 					if nm := calleeName(&x.Call); strings.Contains(nm, "Endian).Uint") && len(x.Call.Args) == 2 {
-						if par, isPar := x.Call.Args[1].(*ssa.Parameter); isPar && isByteSlice(par.Type()) {
+						if par, isPar := x.Call.Args[1].(*ssa.Parameter); isPar && isByteSlice(par.Type()) && wireTruncation {
 							need := int64(8)
 							switch {
 							case strings.HasSuffix(nm, "Uint16"):
@@ -285,7 +287,7 @@ func ruleWIRE(w *World, r *Report, only ...string) {
 						}
 					}
 					// BUFNEXT
-					if f := x.Call.StaticCallee(); f == nil || f.String() != "(*bytes.Buffer).Next" {
+					if f := x.Call.StaticCallee(); f == nil || f.String() != "(*bytes.Buffer).Next" || !wireTruncation {
 						continue
 					}
 					for _, ref := range referrersOf(x) {
